@@ -70,6 +70,16 @@ def cases(rng, tier):
     out.append(_case(rng, 'expm', 1, 2, True, 'generic', 'generic', False, flag=False, dt=(0.25, 0.5)))
     out.append(_case(rng, 'expm', 3, 5, True, 'zero', 'generic', True, flag=True, dt=(0.0, 0.5)))
     out.append(_case(rng, 'expm', 3, 5, False, 'scalar', 'real', True, flag=False, dt=(0.0, 0.5)))
+    # maps returning their own argument or a view of it (identity, exchange matrix)
+    for af, n in (('identity-alias', 3), ('reverse-view', 3), ('reverse-view', 4)):
+        Amat = np.eye(n) if af == 'identity-alias' else np.eye(n)[::-1]
+        for kind in ('eigh', 'expm-h', 'expm-g'):
+            if kind == 'eigh':
+                c = _case(rng, 'eigh', n, 2, False, 'generic', 'generic', True, numeig=1)
+            else:
+                c = _case(rng, 'expm', n, 3, False, 'generic', 'generic', True, flag=(kind == 'expm-h'), dt=(0.0, 0.5) if kind == 'expm-h' else (0.25, 0.5))
+            c['A'] = KC.c2j(Amat); c['real_A'] = True; c['afunc'] = af; c['spectrum'] = af
+            out.append(c)
     N = {'quick': 100, 'thorough': 900, 'search': 300}[tier]
     sizes = [2, 3, 3, 3, 4, 4, 4, 5, 5, 6, 7] if tier != 'quick' else [2, 2, 3, 3, 3, 3, 4, 4, 4, 4, 5, 5, 5, 6, 7]
     for _ in range(N):
@@ -89,6 +99,11 @@ def cases(rng, tier):
     return out
 
 
+def _afunc(case, A):
+    """the matrix-free map: usually x -> A x; for the identity / exchange matrix also as a map returning its argument / a view"""
+    return {'identity-alias': (lambda x: x), 'reverse-view': (lambda x: x[::-1])}.get(case.get('afunc'), lambda x: A @ x)
+
+
 def impl(case):
     import pytenet.krylov as kr
     A, v = KC.make_arrays(case)
@@ -97,10 +112,10 @@ def impl(case):
             rec.patch_iterations()
             try:
                 if case['kind'] == 'eigh':
-                    w, u = kr.eigh_krylov(lambda x: A @ x, v, case['m'], case['numeig'])
+                    w, u = kr.eigh_krylov(_afunc(case, A), v, case['m'], case['numeig'])
                     r = {'w': [float(x) for x in w], 'u': KC.c2j(np.asarray(u).T), 'ushape': list(np.shape(u)), 'wshape': list(np.shape(w))}
                 else:
-                    x = kr.expm_krylov(lambda x: A @ x, v, complex(*case['dt']), case['m'], hermitian=case['hermitian'])
+                    x = kr.expm_krylov(_afunc(case, A), v, complex(*case['dt']), case['m'], hermitian=case['hermitian'])
                     r = {'x': KC.c2j(x), 'xshape': list(np.shape(x))}
             finally:
                 kr.lanczos_iteration, kr.arnoldi_iteration = rec._saved['lanczos_iteration'], rec._saved['arnoldi_iteration']
